@@ -72,6 +72,21 @@ REAL = _Prim('real', z3.RealSort())
 STR = _Prim('str', StrS)
 
 
+class TNum(Ty):
+    """a named real quantity (datetime = seconds on a clock, timedelta = seconds); always truthy"""
+
+    def __init__(self, nm):
+        self.name = 'num:' + nm
+        self.nm = nm
+
+    def sort(self):
+        return z3.RealSort()
+
+
+DATETIME = TNum('datetime')
+TIMEDELTA = TNum('timedelta')
+
+
 class _NoneT(Ty):
     name = 'None'
 
@@ -105,6 +120,17 @@ class TOpaque(Ty):
 
     def sort(self):
         return self._sort
+
+
+class _TAny(TOpaque):
+    """parameter type that accepts any value (the value is only passed on); coercion forgets the value"""
+
+    def __init__(self):
+        TOpaque.__init__(self, 'any')
+        self.name = 'any'
+
+
+ANY = _TAny()
 
 
 class TFun(Ty):
